@@ -209,7 +209,7 @@ __CPROVER_loop_invariant((AM->gpos >= 0 && index1 == (unsigned long)AM->gouter &
 __CPROVER_decreases(Ainner.m_end - Ainner.m_id)
 //@end
 
-//@harness h_SP_compute enforce=SusceptibilityPart_compute props=C14,C17 min_obl=4976 timeout=900 reach=3
+//@harness h_SP_compute replay=sparsewalk:sp enforce=SusceptibilityPart_compute props=C14,C17 min_obl=4976 timeout=900 reach=3
 void h_SP_compute(void)
 {
   struct SusceptibilityPart *p;
